@@ -255,19 +255,23 @@ def run(ctx):
         ctx.ob("R16.2", "erase#%d" % i, ok, fw.loc(e), "%s: %s" % (show(e), why))
     _library_keys(ctx, fw)
     _cycle_search_is_linear(ctx)
-    # emission loops
+    # emission loops (iterator-style `for` or range-for)
     n_em = 0
     for n in fw.walk():
-        if n.get("k") != "for":
+        if n.get("k") not in ("for", "forrange"):
             continue
         lits = [s.get("v", "") for s in walk(n["body"]) if s.get("k") == "str"]
         if not any(t in l for l in lits for t in ("_moddef", "_RegisterTypes", "_BuildInstants")):
             continue
         n_em += 1
-        cont = loop_container(fw, n)
-        on_libs = cont is not None and (local_ref(cont) or {}).get("d") == libs["d"]
-        init = show(n.get("init")) if n.get("init") else ""
-        asc = "begin" in init and n.get("inc") is not None and peel(n["inc"]).get("k") in ("call", "un") and "++" in (peel(n["inc"]).get("op") or peel(n["inc"]).get("f", ""))
+        if n["k"] == "forrange":
+            cont = n.get("range")
+            asc = True            # a range-for walks begin() .. end()
+        else:
+            cont = loop_container(fw, n)
+            init = show(n.get("init")) if n.get("init") else ""
+            asc = "begin" in init and n.get("inc") is not None and peel(n["inc"]).get("k") in ("call", "un") and "++" in (peel(n["inc"]).get("op") or peel(n["inc"]).get("f", ""))
+        on_libs = cont is not None and (local_ref(strip_casts(peel(cont))) or {}).get("d") == libs["d"]
         ctx.ob("R16.2", "emission-loop#%d" % n_em, on_libs and asc, fw.loc(n),
                "emits %s over %s %s" % ([l.strip()[:24] for l in lits if "_" in l][:2], show(cont) if cont else "?", "ascending from begin()" if asc else "NOT ascending"))
     ctx.floor("R16.2", "emission loops", n_em, 5)
